@@ -702,6 +702,22 @@ def r30(ctx: Ctx) -> RuleReport:
                                         and m.value.func.attr == 'partition' and norm(m.value.func.value) == l_tgt \
                                         and try_fold(m.value.args[0]) == (True, '~'):
                                     unp = [norm(e) for e in m.targets[0].elts]
+                                elif isinstance(m, ast.Assign) and isinstance(m.targets[0], ast.Tuple) and len(m.targets[0].elts) == 3 \
+                                        and isinstance(m.value, ast.Call) and isinstance(m.value.func, ast.Attribute) \
+                                        and m.value.func.attr in ('partition', 'rpartition') and norm(m.value.func.value) == l_tgt and m.value.args:
+                                    oks_, sep_ = try_fold(m.value.args[0])
+                                    if oks_ and isinstance(sep_, str) and sep_ != '~':
+                                        # the reference is cut at another text: which alignments does that miss?  (E5: the lexer's ALIGNMENT language)
+                                        import re as _re
+                                        from ..rx import Lang as _Lang
+                                        cp_ = ctx.lex.compiled['PENMAN_RE']
+                                        w_ = cp_.lang('ALIGNMENT').witness_not_subset(_Lang.from_pattern(_re.escape(sep_) + '.*', _re.S)) if cp_.has('ALIGNMENT') else None
+                                        if w_ is not None:
+                                            rep.violation(f'{fi.fq}: every reference to a renamed variable is rewritten', fi.loc(m),
+                                                          f'the alignment of a reference is split off at {sep_!r}, but the lexer also accepts alignments that do not start that way, '
+                                                          f'e.g. {w_!r}: a reference written `b{w_}` is looked up with its alignment still attached, is not found in the map and '
+                                                          f'keeps its old name while the node is renamed - the edge silently becomes a dangling attribute')
+                                            return rep
                             shape_ok = False
                             if len(parts) == 1 and isinstance(parts[0], ast.Subscript) and norm(parts[0].slice) == l_tgt:
                                 shape_ok = True          # plain lookup of the whole atom (R11 judges the key)
@@ -1170,7 +1186,13 @@ def r38(ctx: Ctx) -> RuleReport:
                         | {(f'CONCEPT_ROLE == {r}', False) for r in roles} | {(f'CONCEPT_ROLE != {r}', True) for r in roles}
                     extra = sorted(c for c in af if c not in allowed and not any(c in facts_ex(ctx, fi, l) for l in [loop]))
                     if not (af & allowed):
-                        feeds.append(('unknown', n, f'{norm(n)} is not restricted to non-instance triples'))
+                        mentions_role = any(any(r in c for r in roles) for c, _ in af)
+                        if not mentions_role:
+                            feeds.append(('bad', n, f'{norm(n)} runs for every triple, the instance triples included: the CONCEPT of a node goes into the set of protected '
+                                                   f'variables, so a collapsible relation node whose variable happens to be spelled like some concept (the placeholder "_" of a '
+                                                   f'reified edge and a node "(b / _)") is never dereified - reify followed by dereify does not restore the graph'))
+                        else:
+                            feeds.append(('unknown', n, f'{norm(n)} is not restricted to non-instance triples'))
                     elif not extra:
                         feeds.append(('targets', n, norm(n)))
                     else:
